@@ -40,6 +40,7 @@ ASSUMPTIONS = [
 QUERIES = [
     ("valid", "$.a"), ("valid", "$..a"), ("valid", "$[?@.a == 1]"), ("valid", "$[?match(@.b, 'x.*')]"), ("valid", "$.é"),
     ("valid", "$"), ("valid", "$[?@.a == @.b]"), ("valid", "$[?@ != $[0]]"), ("valid", "$[?@.a < @.b || length(@.a) == 1]"),
+    ("valid", "$..[-1]"), ("valid", "$[?@[-1] == 2]"),
     ("syntax", "$["), ("syntax", "$.a b"), ("type", "$[?count(1) == 1]"), ("name", "$[?nosuch(@.a)]"),
     ("index", "$[9007199254740992]"), ("overflow", "$[?@ == 1e400]"), ("syntax", "$[?@ == 'a\x01']"),
     # invalid queries that contain line breaks: the diagnostic must still be one line
@@ -64,6 +65,7 @@ DOCS = [
     ("ok", b'{"a": "\\ud83d", "b": "x\\udc00y"}'), ("ok", b'[{"a": 1, "b": "xy\\ud800"}, {"a": "\\u00e9\\u4e2d"}]'),
     ("ok", json.dumps([{"a": {"x": 1}, "b": {"y": 1}}, {"a": {"x": [1]}, "b": {"x": [1]}}, {"a": 1.0, "b": 1},
                        {"a": [1], "b": [True]}, {"a": "x", "b": None}]).encode()),
+    ("ok", json.dumps({"a": [1, 2], "b": [], "c": [[], [2]]}).encode()), ("ok", json.dumps([[1, 2], [], [2], {}, ""]).encode()),
     ("ok", b"1"), ("ok", b"null"), ("ok", b'"s"'), ("ok", b"[]"),
     ("ok", b'  {"a": [1, 2, {"a": 3}]}\n'),
     ("deep", json.dumps(deep(150)).encode()),
